@@ -66,6 +66,22 @@ def step(ctx, g, w, b, docs, fails, flags, free=()):
     if any(has_multi_formal(w.conts[x]) for x in docs):
         ctx.count("skipped-multi-formal")
         return
+    if g.chance(0.2):
+        # between two derivations a record that has already been read (compared, hashed, copied) gains a type: the next
+        # flattened() / update() conserves the record as it is *now*
+        conts_ = [c_ for c_ in all_containers(w, [d]) if w.conts[c_].records]
+        if conts_:
+            c_ = r.choice(conts_)
+            h_ = w.rec_at(c_, r.randrange(len(w.conts[c_].records)))
+            rec_ = w.recs[h_]
+            _ = (list(rec_.attributes), hash(rec_), rec_ == rec_)
+            tq = QualifiedName(Namespace("ex", "http://example.org/"), "LateType%d" % r.randint(0, 9))
+            if w.add_type(h_, tq) is None:
+                flags.add("changed-between-derivations")
+                if not any(a.uri == "http://www.w3.org/ns/prov#type" and isinstance(v, QualifiedName) and v.uri == tq.uri
+                           for (a, v) in rec_.attributes):
+                    fails.append(Failure("oracle", None, "a type asserted on a record that had been read before is not among its attributes",
+                                         {"ops": list(w.ops)}))
     if k < 0.3:
         before = doc_bags(dobj)
         obs_before = proto.canon_cont(dobj)
